@@ -8,7 +8,7 @@ RANGE = {"u8": (0, 255), "i8": (-128, 127), "u16": (0, 65535), "i16": (-32768, 3
 SELS = {1: ["all", "0"], 2: ["all", "1", "10"], 3: ["all", "0", "1", "20"], 4: ["all", "3", "12"]}
 AXES = {2: ["0", "1"], 3: ["0", "2", "02", "21"], 4: ["3", "03", "012"]}
 RAXES = {2: ["0", "1"], 3: ["0", "2", "02"], 4: ["3", "03"]}
-TUS = {"PT_A": ("fh", "hk"), "PT_B": ("cu", "no"), "PT_C": ("sa", "sr", "st")}
+TUS = {"PT_A": ("fh", "hk"), "PT_B": ("cu", "no", "cn"), "PT_C": ("sa", "sr", "st", "sv")}
 
 def pixels(r, ch, n, style):
     lo, hi = RANGE[ch]
@@ -71,6 +71,24 @@ def gen_ops(ctx):
             for _ in range(250 if th else 70):
                 w, h = r.range(0, 6), r.range(0, 6); lo = r.range(-4, 8); hi = lo + r.range(-1, 8)
                 ops.append("sr %s %s %d %d %d %d %d | %s" % (vt, r.choice(RAXES[nc]), pow2_if_signed(r, vt, th), w, h, lo, hi, planes(r, vt, w * h, "small")))
+    # cumulative histograms of FRACTIONAL bins (quarter weights: exact; normalize(): quantised to 2^-20), 1-D and n-D
+    ops.append("cn rgb8 20 1 n 2 2 | 1 2 1 2 | 0 0 0 0 | 3 3 4 4")
+    ops.append("cn rgb8 20 1 q 2 2 | 1 2 1 2 | 0 0 0 0 | 3 3 4 4")
+    for vt in VT:
+        nc = VT[vt][1]
+        for _ in range(200 if th else 60):
+            w, h = r.range(0, 6), r.range(0, 6)
+            ops.append("cn %s %s %d %s %d %d | %s" % (vt, r.choice(SELS[nc]), pow2_if_signed(r, vt, th), r.choice("qn"), w, h, planes(r, vt, w * h, "small")))
+    # std::vector two-step sequences: first fill (or a caller-prepared vector), then an ACCUMULATING fill, across channel depths
+    ops.append("sv g8 g16 3 3 0 | | 1 2 3 4 5 6 7 8 9 | 1 2 3 400 500 600 7 8 9")
+    ops.append("sv - g8 2 2 4 | 3 0 2 1 | 0 0 0 0 | 1 1 3 200")
+    for _ in range(300 if th else 90):
+        vt1, vt2 = r.choice(["g8", "g16", "-"]), r.choice(["g8", "g16"])
+        w, h = r.range(0, 5), r.range(0, 5); n = w * h
+        pre = r.choice([0, 0, 3, 7, 256, 300]) if vt1 == "-" else r.choice([0, 0, 5])
+        init = " ".join(str(r.below(4)) for _ in range(pre))
+        def pl(vt): return " ".join(map(str, pixels(r, "u16" if vt == "g16" else "u8", n, r.choice(["small", "edge", "rand"]))))
+        ops.append("sv %s %s %d %d %d | %s | %s | %s" % (vt1, vt2, w, h, pre, init, pl(vt1 if vt1 != "-" else "g8"), pl(vt2)))
     for vt in ("g8", "g16"):
         for _ in range(200 if th else 60):
             w, h = r.range(0, 6), r.range(0, 6)
@@ -81,6 +99,8 @@ def nontrivial(op):
     w = op.split(None, 11)
     if w[0] in ("fh", "hk"): return int(w[8]) * int(w[9]) > 1
     if w[0] in ("cu", "no", "sa", "sr"): return int(w[4]) * int(w[5]) > 1
+    if w[0] == "cn": return int(w[5]) * int(w[6]) > 1
+    if w[0] == "sv": return int(w[3]) * int(w[4]) > 1
     if w[0] == "st": return int(w[2]) * int(w[3]) > 1
     return False
 
